@@ -206,6 +206,31 @@ Definition run_hist_suite (cs : list hist_case) :=
    ("RESULT", "C06.known.B4_invert_unimplemented", firstn 2 (bad (fun c => negb (conformant (hc_h c)) || negb (has_known_kind (hc_h c)) || match hc_build c with B'Panic => false | _ => true end) (fun c => show_hist (hc_h c)) cs));
    ("RESULT", "C06.writer_nopanic", bad (fun c => negb (conformant (hc_h c)) || match hc_h c with [] => true | _ => match hc_text c with Some _ => true | None => false end end) (fun c => show_hist (hc_h c)) cs)].
 
+(* ------------------------------------------------------------ ref: the harness's Rust reference (used at sizes this
+   evaluation does not reach) against the specification it is a port of *)
+Inductive fres := FOk (g : list atom) | FJoin (a b : nat) | FUnmatched (occs : list nat) | FMalformed.
+Record ref_case := FC { fc_h : list ev; fc_atoms : list (option (nat * nat)); fc_rnums : list (option (nat * nat)); fc_res : fres; fc_bonds : list (nat * nat * option nat) }.
+Definition ref_denote_ok (c : ref_case) : bool :=
+  match fc_h c with [] => true | _ =>
+  if negb (conformant (fc_h c)) then true else
+  match denote_events (fc_h c), fc_res c with
+  | Some (DOk g), FOk g' => list_eqb atom_eqb g g'
+  | Some (DJoin a b), FJoin a' b' => Nat.eqb a a' && Nat.eqb b b'
+  | Some (DUnmatched o), FUnmatched o' => list_eqb Nat.eqb o o'
+  | None, FMalformed => true
+  | _, _ => false end end.
+Definition ref_bonds_ok (c : ref_case) : bool :=
+  let eb := expected_bonds (fc_h c) (fc_atoms c) (fc_rnums c) [] 0 0 [] [] in
+  forallb (fun q => let '(i, j, o) := q in
+             opt_eqb Nat.eqb o (option_map snd (find (fun e => Nat.eqb (fst (fst e)) i && Nat.eqb (snd (fst e)) j) eb))) (fc_bonds c).
+Definition run_ref_suite (cs : list ref_case) :=
+  [("RESULT", "corr.reference_denotation", bad ref_denote_ok (fun c => show_hist (fc_h c)) cs);
+   ("RESULT", "corr.reference_bond_cursors", bad ref_bonds_ok (fun c => show_hist (fc_h c)) cs)].
+
+Record refg_case := GC { gc_g : list atom; gc_round : list atom }.
+Definition run_refg_suite (cs : list refg_case) :=
+  [("RESULT", "corr.reference_round_trip", bad (fun c => negb (wf (gc_g c)) || list_eqb atom_eqb (expected_roundtrip (gc_g c)) (gc_round c)) (fun c => show_graph (gc_g c)) cs)].
+
 (* ------------------------------------------------------------ pool *)
 Record pool_case := PC { pc_hits : list (nat * nat); pc_out : list (option N) }.
 Definition pool_model_ok (c : pool_case) : bool := list_eqb (opt_eqb N.eqb) (hits pool0 (pc_hits c)) (pc_out c).
